@@ -24,11 +24,13 @@ def run(ctx):
     strs = list(gens.all_strings(gens.SQ_ALPHABET, L))
     strs += gens.single_codepoints(not ctx.quick)
     strs += list(gens.escapes_in_context())
+    strs += gens.escape_position_sweep(gens.single_codepoints(False) if ctx.quick else [chr(c) for c in range(0, 0x110000, 7)])
     strs += gens.random_mixed(ctx.rng, 3000 if ctx.quick else 50000)
     reqs = [("quote", [i, s]) for i in range(NQ) for s in strs]
     outs = core.check_suite(ctx, "SQ-quoters", reqs, split=True, cross=True, cross_skip=core.kf_list(ctx), pred="c05_quote_pred",
                             nontrivial=lambda rs: set())
     ustrs = list(gens.unq_strings(2 if ctx.quick else 3))
+    ustrs += gens.escape_position_sweep(gens.single_codepoints(False))
     ustrs += gens.random_mixed(ctx.rng, 2000 if ctx.quick else 30000)
     ureqs = [("unquote", [i, s]) for i in range(NU) for s in ustrs]
     core.check_suite(ctx, "SQ-unquoters", ureqs, split=True, cross=True, nontrivial=lambda rs: set())
